@@ -13,7 +13,7 @@ func hyperOperationType(p *Program) *types.Named {
 	// by role: element type of the stack returned by the traversal used by QueryProof.Verify
 	hyV := p.MustMethod(pkgHyper, "QueryProof", "Verify")
 	var op *types.Named
-	eachInstr(hyV, func(in ssa.Instruction) {
+	p.RegionOf(hyV, 2).Instrs(func(_ regionSite, in ssa.Instruction) {
 		cc := callCommon(in)
 		if cc == nil || op != nil {
 			return
